@@ -45,6 +45,11 @@ structure Build where
   /-- repair of F6b (commit 7be4123): an MDC key / default is all text pieces of its argument
   joined (`plain_text`). `false` = the code before the repair (first piece only). -/
   mdcWhole : Bool := true
+  /-- FINDING `C11/timezone-junk-accepted` (open): the time-zone argument of `d`/`date` is judged by
+  its FIRST piece only (`arg.first()`, mod.rs:424-440), so `(utc}x)`, `(utc{m})`, `(local{{junk)` are
+  accepted silently. `false` = the code as it is; `true` = the proposed repair (the argument is
+  read whole through `plain_text`, like the MDC key since 7be4123). -/
+  tzWholeArg : Bool := true
 
 /-- the verdict the construction-time check consults -/
 def Build.dateOk (B : Build) (fmt : List Char) : Bool :=
@@ -108,6 +113,26 @@ def plainTextOf (invalid : List Char) (arg : List Piece) : Except (List Char) (L
 def mdcArgText (B : Build) (invalid : List Char) (arg : List Piece) : Except (List Char) (List Char) :=
   if B.mdcWhole then plainTextOf invalid arg else mdcTextOf invalid arg
 
+/-- proposed repair: the whole argument must be the text `utc` / `local`; a syntax error inside it
+surfaces as itself, anything else is `invalid timezone` -/
+def timezoneOfWhole (arg : List Piece) : Except (List Char) Bool :=
+  match plainTextOf eInvalidTimezone arg with
+  | .ok z =>
+    if z = cs!"utc" then .ok true
+    else if z = cs!"local" then .ok false
+    else .error (eInvalidTimezoneNamed z)
+  | .error e => .error e
+
+/-- is the zone argument, read whole, exactly the text `utc` or `local` -/
+def zoneArgValid (z : List Piece) : Bool :=
+  match plainTextOf eInvalidTimezone z with
+  | .ok t => t = cs!"utc" || t = cs!"local"
+  | .error _ => false
+
+/-- the time-zone argument, as the code reads it now or after the proposed repair -/
+def tzOf (B : Build) (arg : List Piece) : Except (List Char) Bool :=
+  if B.tzWholeArg then timezoneOfWhole arg else timezoneOf arg
+
 def noArgs (args : List (List Piece)) (p : Params) (k : Leaf) : Chunk :=
   if args.isEmpty then .leaf k p else .error eUnexpectedArgs
 
@@ -125,7 +150,7 @@ def dateChunk (B : Build) (args : List (List Piece)) (p : Params) : Chunk :=
     else
     match args with
     | _ :: z :: _ =>
-      match timezoneOf z with
+      match tzOf B z with
       | .ok utc => .leaf (.time format utc) p
       | .error e => .error e
     | _ => .leaf (.time format false) p
